@@ -37,13 +37,9 @@ def arc_from_theta(edge_point_1: PointType, edge_point_2: PointType, angle: floa
 
     center = pm - length * axis / 2 - rm * mag_chord / 2 / np.tan(angle / 2)
 
-    arc_point = f.arc_mid(axis, center, edge_point_1, edge_point_2)
-
-    if abs(angle) > np.pi:
-        # arc_mid takes the shorter way around
-        arc_point = 2 * center - arc_point
-
-    return arc_point
+    # half the turn from the first point; (the secant construction of f.arc_mid
+    # has nothing to normalize at angle = pi, where the chord passes through the center)
+    return f.rotate(edge_point_1, angle / 2, f.unit_vector(axis), center)
 
 
 @dataclasses.dataclass
